@@ -546,7 +546,7 @@ func newSpecs() *Specs {
 
 var clauseKw = map[string]bool{"func": true, "loop": true, "spec": true, "lemma": true, "props": true, "requires": true,
 	"ensures": true, "modifies": true, "invariant": true, "inline": true, "trusted": true, "pure": true, "allocates": true,
-	"nosafety": true, "use": true, "end": true, "plain": true}
+	"nosafety": true, "use": true, "end": true, "plain": true, "assume": true}
 
 // loadSpecFile parses one contract file. pkg is the package key the file belongs to.
 func (sp *Specs) loadSpecFile(path, pkg string, trustedFile bool) error {
@@ -675,6 +675,18 @@ func (sp *Specs) loadSpecFile(path, pkg string, trustedFile bool) error {
 				return fail(err)
 			}
 			cur.Allocates = e
+		case "assume":
+			// assume <expr> at <local>: an explicit, reported assumption made when the local is first bound
+			ai := strings.LastIndex(rest, " at ")
+			if ai < 0 || cur == nil {
+				return fail(fmt.Errorf("assume needs 'at <local>' inside a func block"))
+			}
+			e, err := parseExpr(strings.TrimSpace(rest[:ai]))
+			if err != nil {
+				return fail(err)
+			}
+			cur.AnchoredUses = append(cur.AnchoredUses, AnchoredUse{Anchor: strings.TrimSpace(rest[ai+4:]), E: &Expr{Op: "assume", Args: []*Expr{e}, Src: strings.TrimSpace(rest[:ai])}})
+			sp.Scanned = append(sp.Scanned, fmt.Sprintf("explicit assumption in %s: %s", cur.Name, strings.TrimSpace(rest[:ai])))
 		case "plain":
 			cur.Plain = append(cur.Plain, strings.Fields(rest)...)
 		case "inline":
